@@ -71,7 +71,7 @@ C = [
  ("C10-traverse-ignores-direction", "C10", "seek-orientation", "Billet.traverse decides on an extension node without regard to the scan direction (the repaired defect)",
   [("pkg/core/mpt/billet.go", "bytes.Compare(n.key, from) > 0 != backwards {", "bytes.Compare(n.key, from) > 0 {")]),
  ("C09-backward-filter-flipped", "C09", "seek-orientation", "the backward key filter of the memory layer keeps keys after the start",
-  [("pkg/core/storage/memcached_store.go", "cmp.Compare(key[lPrefix:], sStart) <= 0)", "cmp.Compare(key[lPrefix:], sStart) >= 0)")]),
+  [("pkg/core/storage/memcached_store.go", "cmp.Compare(key[lPrefix:], sStart) <= 0 || strings", "cmp.Compare(key[lPrefix:], sStart) >= 0 || strings")]),
  ("C09-leveldb-backward-steps-next", "C09", "seek-orientation", "LevelDB backward scan steps with Next",
   [("pkg/core/storage/leveldb_store.go", "\t\tnext = iter.Prev", "\t\tnext = iter.Next")]),
  ("C01-whitelist-fee-reset-skips-cache", "C01", "cache-pairing", "re-setting a whitelisted method's fee stores the record but skips the cache (the repaired defect)",
@@ -100,6 +100,8 @@ C = [
   [("pkg/vm/stackitem/json.go", "\t\tif err = CheckIntegerSize(num); err != nil {\n\t\t\treturn nil, fmt.Errorf(\"%w (%w)\", ErrInvalidValue, err)\n\t\t}\n", "")]),
  ("C17-compressed-flag-sticky", "C17", "compress-frame", "the Compressed flag survives from the previous encoding (the repaired defect)",
   [("pkg/network/message.go", "\tm.Flags &^= Compressed\n\tif enableCompression {", "\tif m.Flags&Compressed == 0 && enableCompression {")]),
+ ("C09-memory-backward-drops-extensions", "C09", "seek-orientation", "the memory layer's backward filter drops keys extending the start (the repaired defect)",
+  [("pkg/core/storage/memcached_store.go", " || strings.HasPrefix(key[lPrefix:], sStart))", ")")]),
 ]
 
 root = "/verif/controls"
